@@ -87,6 +87,16 @@ theorem gen_no_inplace_on_arguments :
     fpmNoInPlaceOnArguments = true ∧ fpmWrapNoInPlaceOnArguments = true ∧ babinetNoInPlaceOnArguments = true ∧
     ffsNoInPlaceOnArguments = true ∧ ufsNoInPlaceOnArguments = true := by decide
 
+/-- no entry point that shares the executor caches with the fixed-sampling routes — `dft2`, `idft2`, `czt2`, `iczt2` and the
+gradient entry points `dft2_backprop`, `idft2_backprop` (`czt2_backprop` / `iczt2_backprop` where they exist) — applies an in-place
+NumPy operation (augmented assignment, item assignment, `out=`, mutating method) to an object read from a cache (`self.Eout[key]`,
+`self.Ein[key]`, `self.components[key]`) or to a view / alias of one: a forward result does not depend on which calls, forward or
+backprop, came before it (AST scan of the current source, re-done every run; the call-history family executes the claim) -/
+theorem gen_no_inplace_on_caches :
+    mdftDft2NoInPlaceOnCache = true ∧ mdftIdft2NoInPlaceOnCache = true ∧ mdftDft2BackpropNoInPlaceOnCache = true ∧
+    mdftIdft2BackpropNoInPlaceOnCache = true ∧ cztCzt2NoInPlaceOnCache = true ∧ cztIczt2NoInPlaceOnCache = true ∧
+    cztCzt2BackpropNoInPlaceOnCache = true ∧ cztIczt2BackpropNoInPlaceOnCache = true := by decide
+
 /-- the per-axis `Q` of both free functions as re-read by THIS check (each axis from its own sample count) -/
 theorem gen_fixed_Q (s0 s1 M0 M1 dx z lam dxo sh0 sh1 : K) :
     ffsQ0 s0 s1 M0 M1 dx z lam dxo sh0 sh1 = Model.C03.axisQ s0 dx z lam dxo ∧
@@ -308,6 +318,134 @@ theorem driver_tables_are_models {R V : Type} [Field R] [CharZero R] [Field V] [
       = Model.C05.toFpmAndBack e ofR sqrt m n M N dx z lam dxo shx shy (Model.C01.rd2 mask) (Model.C01.rd2 f) j i :=
   ⟨fixedTableG_eq e ofR sqrt m n M N dx z lam dxo shx shy f k l hk hl, table2G_eq e m n M N αy αx sy sx norm f k l hk hl,
    fpmTableG_eq e ofR sqrt m n M N dx z lam dxo shx shy mask f j i hj hi⟩
+
+section fpm2
+variable {R V : Type} [Field R] [Field V] [DecidableEq R]
+open Model.C03 Model.C05
+
+/-- transpose covariance of the whole mask path: transposing the field AND the mask and swapping the per-axis arguments (the two
+shift components; the mask grid `My × Mx` becomes `Mx × My`) transposes what `to_fpm_and_back` returns — every pupil and mask
+shape, any mask sampling and shift -/
+theorem fpm_transpose (e : R → V) (ofR : R → V) (sqrt : R → R) (m n My Mx : Nat) (dx efl lam fdx shx shy : R)
+    (mask : Nat → Nat → V) (f : Nat → Nat → V) (j i : Nat) :
+    toFpmAndBack e ofR sqrt n m Mx My dx efl lam fdx shy shx (fun l k => mask k l) (fun i j => f j i) i j
+      = toFpmAndBack e ofR sqrt m n My Mx dx efl lam fdx shx shy mask f j i := by
+  simp only [toFpmAndBack, maskAndBack]
+  rw [mul_comm (sqrt (axisAlpha (Num.ofInt (n : Int)) dx efl lam fdx)),
+    mul_comm (sqrt (axisAlpha (Num.ofInt (Mx : Int)) fdx efl lam dx))]
+  rw [← mdft2_transpose (fun t => e (-t)) My Mx m n _ _ _ _ _ _ j i]
+  congr 1
+  funext l k
+  rw [mdft2_transpose e m n My Mx _ _ _ _ _ f k l]
+
+/-- the output side of one axis: asking for a larger output window `N' ≥ N` (origin on origin) only adds samples around the
+old ones -/
+theorem mdft1_out_embed (e : R → V) (n N N' : Nat) (h : N ≤ N') (α s : R) (f : Nat → V) (l : Nat) :
+    mdft1 e n N' α s f (l + (N' / 2 - N / 2)) = mdft1 e n N α s f l := by
+  simp only [mdft1_eq_sum]
+  have hc : (coord N' (l + (N' / 2 - N / 2)) : R) = coord N l := by
+    rw [coord_eq, coord_eq]
+    obtain ⟨o, ho⟩ : ∃ o, N' / 2 = N / 2 + o := ⟨N' / 2 - N / 2, by omega⟩
+    rw [ho, Nat.add_sub_cancel_left]
+    push_cast; ring
+  rw [hc]
+
+/-- zero-pad embedding invariance of the whole mask path: embedding the pupil field in a larger `m' × n'` zero array with the
+origin on the origin (any parities, square or not) returns, on the window of the original samples, exactly what the original
+array returns: the forward constants do not depend on the pupil sample count, the return leg's depend on the mask grid only -/
+theorem fpm_pad_invariant (e : R → V) (ofR : R → V) (sqrt : R → R) (m n m' n' My Mx : Nat) (hm : m ≤ m') (hn : n ≤ n')
+    (hm0 : 0 < m) (hn0 : 0 < n) [CharZero R]
+    (dx efl lam fdx shx shy : R) (hdx : dx ≠ 0) (hz : efl ≠ 0) (hl : lam ≠ 0) (hd : fdx ≠ 0)
+    (mask : Nat → Nat → V) (f : Nat → Nat → V) (j i : Nat) :
+    toFpmAndBack e ofR sqrt m' n' My Mx dx efl lam fdx shx shy mask (embed m n m' n' f) (j + (m' / 2 - m / 2)) (i + (n' / 2 - n / 2))
+      = toFpmAndBack e ofR sqrt m n My Mx dx efl lam fdx shx shy mask f j i := by
+  have c : ∀ a : Nat, 0 < a → ((Num.ofInt (a : Int) : R)) ≠ 0 := by
+    intro a ha; simp only [ofInt_eq, Int.cast_natCast]; exact_mod_cast ha.ne'
+  simp only [toFpmAndBack, maskAndBack]
+  rw [axisAlpha_indep (Num.ofInt (m' : Int)) (Num.ofInt (m : Int)) dx efl lam fdx (c m' (by omega)) (c m hm0) hdx hz hl hd,
+      axisAlpha_indep (Num.ofInt (n' : Int)) (Num.ofInt (n : Int)) dx efl lam fdx (c n' (by omega)) (c n hn0) hdx hz hl hd]
+  simp only [mdft2_embed e m n m' n' My Mx hm hn]
+  simp only [mdft2]
+  rw [mdft1_out_embed _ My m m' hm]
+  congr 2
+  funext k
+  rw [mdft1_out_embed _ Mx n n' hn]
+
+/-- non-vacuity of `fpm_pad_invariant`: a 3 × 4 pupil embedded in 6 × 5 (offsets 2 and 0), exact rational optics -/
+example : (3 ≤ 6 ∧ 4 ≤ 5 ∧ 0 < 3 ∧ 0 < 4) ∧ ((1/2 : ℚ) ≠ 0 ∧ (100 : ℚ) ≠ 0 ∧ (25/2 : ℚ) ≠ 0) ∧ (6 / 2 - 3 / 2 = 2 ∧ 5 / 2 - 4 / 2 = 0) := by
+  refine ⟨by omega, by norm_num, by omega⟩
+
+end fpm2
+
+section babinet
+variable {R V : Type} [Field R] [Field V] [DecidableEq R]
+open Model.C03 Model.C05
+
+/-- `Wavefront.babinet` as ARITHMETIC translated from the source — the mask handed to `to_fpm_and_back` (`1 - fpm`), the field at the
+Lyot plane (`self.data - returned.data`), the field after the stop (`lyot * that`, or that itself when no stop is given) — composed
+around the model of the mask path IS `Model.C05.babinet` (a flipped difference, `fpm - 1`, a stop that is added … make this fail) -/
+theorem gen_babinet (e : R → V) (ofR : R → V) (sqrt : R → R) (m n My Mx : Nat) (dx efl lam fdx : R)
+    (lyot mask : Nat → Nat → V) (f : Nat → Nat → V) (j i : Nat) :
+    babinetAfterLyot (lyot j i) (babinetAtLyot (f j i)
+        (toFpmAndBack e ofR sqrt m n My Mx dx efl lam fdx 0 0 (fun k l => babinetMaskArg (mask k l)) f j i))
+      = babinet e ofR sqrt m n My Mx dx efl lam fdx lyot mask f j i ∧
+    babinetNoStop (lyot j i) (babinetAtLyot (f j i)
+        (toFpmAndBack e ofR sqrt m n My Mx dx efl lam fdx 0 0 (fun k l => babinetMaskArg (mask k l)) f j i))
+      = babinet e ofR sqrt m n My Mx dx efl lam fdx (fun _ _ => 1) mask f j i := by
+  have hm : (fun k l => babinetMaskArg (mask k l)) = fun k l => 1 - mask k l := by
+    funext k l; simp only [babinetMaskArg, ofInt_eq, Int.cast_one]; try ring
+  constructor <;>
+    (simp only [babinet, hm, babinetAfterLyot, babinetAtLyot, babinetNoStop, ofInt_eq, Int.cast_zero, Int.cast_one]; try ring)
+
+/-- `Wavefront.babinet` (model: Lyot stop times [field minus the return through the complement mask]) splits, for EVERY mask grid
+and sampling, into the Lyot stop times the band-limiting residual `f - T(1) f` plus the Lyot stop times the return through the
+mask itself -/
+theorem babinet_split (e : R → V) (ofR : R → V) (sqrt : R → R) (m n My Mx : Nat) (dx efl lam fdx : R)
+    (lyot mask : Nat → Nat → V) (f : Nat → Nat → V) (j i : Nat) :
+    babinet e ofR sqrt m n My Mx dx efl lam fdx lyot mask f j i
+      = lyot j i * (f j i - toFpmAndBack e ofR sqrt m n My Mx dx efl lam fdx 0 0 (fun _ _ => 1) f j i)
+        + lyot j i * toFpmAndBack e ofR sqrt m n My Mx dx efl lam fdx 0 0 mask f j i := by
+  have h := babinet_complement e ofR sqrt m n My Mx dx efl lam fdx 0 0 mask f j i
+  simp only [babinet, ofInt_eq, Int.cast_zero, Int.cast_one]
+  rw [← h]; ring
+
+/-- Babinet's principle as the code uses it: on a band-complete `M × M` mask grid (`M·fpm_dx·dx = λ f`, `M ≥` both pupil sides)
+`field - return(1 - mask)` IS the return through the mask, so `babinet` = Lyot stop × `to_fpm_and_back(mask)`, sample for sample -/
+theorem babinet_principle (e : R → V) (he : ∀ a b, e (a + b) = e a * e b) (he0 : e 0 = 1) (ofR : R →+* V)
+    (sqrt : R → R) (m n M : Nat) (hm : m ≤ M) (hn : n ≤ M) (hm0 : 0 < m) (hn0 : 0 < n) [CharZero R] [CharZero V]
+    (horth : ∀ d : ℤ, ∑ l ∈ Finset.range M, e ((d : R) * (l : R) / (M : R)) = if (M : ℤ) ∣ d then (M : V) else 0)
+    (hsqrt : sqrt (1 / (M : R)) * sqrt (1 / (M : R)) = 1 / (M : R))
+    (dx efl lam fdx : R) (hdx : dx ≠ 0) (hf : efl ≠ 0) (hl : lam ≠ 0) (hd : fdx ≠ 0)
+    (hband : dx * fdx / (lam * efl) = 1 / (M : R))
+    (lyot mask : Nat → Nat → V) (f : Nat → Nat → V) (j i : Nat) (hj : j < m) (hi : i < n) :
+    babinet e ofR sqrt m n M M dx efl lam fdx lyot mask f j i
+      = lyot j i * toFpmAndBack e ofR sqrt m n M M dx efl lam fdx 0 0 mask f j i := by
+  rw [babinet_split, fpm_allpass_identity e he he0 ofR sqrt m n M hm hn hm0 hn0 horth hsqrt dx efl lam fdx 0 0 hdx hf hl hd hband
+    f j i hj hi]
+  ring
+
+end babinet
+
+/-- Babinet's principle for the actual kernel `exp(-2πi t)`, the inclusion `ℝ → ℂ` and the real square root: no abstract
+hypothesis left (non-vacuity of `babinet_principle`) -/
+theorem babinet_principle_real (m n M : Nat) (hm : m ≤ M) (hn : n ≤ M) (hm0 : 0 < m) (hn0 : 0 < n)
+    (dx efl lam fdx : ℝ) (hdx : dx ≠ 0) (hf : efl ≠ 0) (hl : lam ≠ 0) (hd : fdx ≠ 0)
+    (hband : dx * fdx / (lam * efl) = 1 / (M : ℝ)) (lyot mask f : Nat → Nat → ℂ) (j i : Nat) (hj : j < m) (hi : i < n) :
+    Model.C05.babinet eReal (⇑Complex.ofRealHom) Real.sqrt m n M M dx efl lam fdx lyot mask f j i
+      = lyot j i * Model.C05.toFpmAndBack eReal (⇑Complex.ofRealHom) Real.sqrt m n M M dx efl lam fdx 0 0 mask f j i := by
+  have hM0 : 0 < M := by omega
+  exact babinet_principle eReal eReal_add eReal_zero Complex.ofRealHom Real.sqrt m n M hm hn hm0 hn0
+    (eReal_orth M hM0) (Real.mul_self_sqrt (by positivity)) dx efl lam fdx hdx hf hl hd hband lyot mask f j i hj hi
+
+
+/-- the array the Lean driver prints for a `bab` request holds, at every index inside it, the value of `Model.C05.babinet` (the
+subject of `gen_babinet`, `babinet_split`, `babinet_principle`) -/
+theorem driver_babinet_table_is_model {R V : Type} [Field R] [CharZero R] [Field V] [CharZero V]
+    (e : R → V) (ofR : R → V) (sqrt : R → R) (m n My Mx : Nat) (dx efl lam fdx : R)
+    (lyot mask f : Array (Array V)) (j i : Nat) (hj : j < m) (hi : i < n) :
+    Model.C01.rd2 (Model.C03.Exec.babTableG e ofR sqrt m n My Mx dx efl lam fdx lyot mask f) j i
+      = Model.C05.babinet e ofR sqrt m n My Mx dx efl lam fdx (Model.C01.rd2 lyot) (Model.C01.rd2 mask) (Model.C01.rd2 f) j i :=
+  babTableG_eq e ofR sqrt m n My Mx dx efl lam fdx lyot mask f j i hj hi
 
 /-! ## non-vacuity (exact rational arithmetic): a band-complete 8-sample mask grid for a 6-sample pupil -/
 example : (1/2 : ℚ) * (25/2) / ((1/2) * 100) = 1 / 8 := by norm_num
